@@ -135,6 +135,7 @@ const (
 var progWeights = map[string][skKinds]int{
 	//        IOW IOR MW MR  DL DMA INT HLT TIM AUD LCD STK ALU CRT DIV OAM STORM
 	"": {6, 6, 5, 5, 6, 2, 3, 2, 3, 3, 3, 3, 5, 2, 1, 2, 1},
+	"C01": {2, 2, 4, 4, 3, 2, 3, 2, 2, 0, 1, 10, 14, 1, 1, 2, 0},
 	"C02": {2, 2, 3, 3, 4, 6, 4, 4, 3, 0, 1, 5, 10, 0, 1, 2, 1},
 	"C03": {2, 3, 4, 4, 3, 6, 3, 2, 3, 0, 2, 5, 8, 0, 1, 4, 1},
 	"C04": {3, 3, 2, 2, 5, 1, 10, 5, 5, 0, 3, 5, 3, 0, 1, 0, 1},
@@ -331,7 +332,7 @@ func (a *asm) aluSnippet() {
 
 func (a *asm) stackSnippet(subAddr int) {
 	r := a.r
-	switch r.intn(8) {
+	switch r.intn(10) {
 	case 0:
 		a.e(0xcd, subAddr&0xff, subAddr>>8)
 	case 1:
@@ -349,8 +350,35 @@ func (a *asm) stackSnippet(subAddr int) {
 		a.e(0x08, ad&0xff, ad>>8) // LD (nn),SP
 	case 6: // conditional call / ret paths
 		a.e(0xaf, 0xcc, subAddr&0xff, subAddr>>8, 0xc4, subAddr&0xff, subAddr>>8) // XOR A; CALL Z; CALL NZ
-	default:
+	case 7:
 		a.e(0xc7 + 8*(1+r.intn(4))) // RST 08..20: the vectors hold RET
+	case 8:
+		// a tiny routine (INC A; LD (DE),A; INC E; RET) copied to work RAM / high RAM / video RAM / cartridge RAM /
+		// echo RAM / OAM / unusable space and called there
+		dest := []int{0xc800, 0xff90, 0x8800, 0x9ff0, 0xa100, 0xe800, 0xfe10, 0xfe9c, 0xfdfc, 0xdffa, 0xfffa}[r.intn(11)]
+		if dest >= 0xa000 && dest < 0xc000 {
+			a.st16(0x0000, 0x0a)
+		}
+		a.e(0x21, dest&0xff, dest>>8)
+		for _, b := range []int{0x3c, 0x12, 0x1c, 0xc9} {
+			a.e(0x36, b, 0x23) // LD (HL),b ; INC HL
+		}
+		a.e(0xcd, dest&0xff, dest>>8)
+	default:
+		// the stack inside the I/O page, the sound registers, OAM, video RAM or at the very top / bottom of memory
+		sp := []int{0xff30, 0xff40, 0xff12, 0xfea0, 0xfe80, 0x9ffe, 0xffff, 0x0001, 0xff82, 0xe001, 0xa002, 0xff08}[r.intn(12)]
+		a.e(0x31, sp&0xff, sp>>8)
+		switch r.intn(4) {
+		case 0:
+			a.e(0xc5, 0xe1) // PUSH BC; POP HL
+		case 1:
+			a.e(0xf5, 0xc1) // PUSH AF; POP BC
+		case 2:
+			a.e(0xe1, 0xe5) // POP HL; PUSH HL
+		default:
+			a.e(0xcd, subAddr&0xff, subAddr>>8)
+		}
+		a.e(0x31, 0xf0, 0xdf)
 	}
 }
 
